@@ -31,7 +31,9 @@ def mk_list(items, tail=NIL):
 def from_tla(t):
     tag = t["t"]
     if tag == "v":
-        return ('v', name_of(t["n"]))
+        k = t.get("i", 0)
+        nm = name_of(t["n"])
+        return ('v', nm if not k else "%s_G%d" % (nm if nm.startswith("_") else "_" + nm, k))
     if tag == "a":
         return ('a', name_of(t["n"]))
     if tag == "i":
